@@ -207,7 +207,7 @@ func init() {
 			Leaf:     dumpLoadLeaf,
 		}
 		chk := &Check{ID: "C17", Scenarios: []*engine.Scenario{sc},
-			Rule: "source histories = all histories of the pool alphabet (every free-list shape with <=4 alive ids, Reset) up to the depth bound; at every node DumpEntities -> LoadEntities into (a) a new world, (b) a world that ran a history and was Reset, (c) a new world via a JSON round trip of the dump: Alive agrees for every handle of the source, available+2 consecutive NewEntity calls return identical handles in source and copy, the loaded world stays usable; codecs: (id,gen) over 43x43 boundary and walking-one values through JSON, MarshalBinary, AppendBinary, UnmarshalBinary; binary inputs of length 0..16 except 8 rejected; non-trivial = >=1 alive entity",
+			Rule:   "source histories = all histories of the pool alphabet (every free-list shape with <=4 alive ids, Reset) up to the depth bound; at every node DumpEntities -> LoadEntities into (a) a new world, (b) a world that ran a history and was Reset, (c) a new world via a JSON round trip of the dump: Alive agrees for every handle of the source, available+2 consecutive NewEntity calls return identical handles in source and copy, the loaded world stays usable; codecs: (id,gen) over 43x43 boundary and walking-one values through JSON, MarshalBinary, AppendBinary, UnmarshalBinary; binary inputs of length 0..16 except 8 rejected; non-trivial = >=1 alive entity",
 			Assume: []string{"codec values outside the boundary + walking-one alphabet are not enumerated (the codecs contain no data-dependent branch)"},
 		}
 		chk.Special = func(tier Tier, rep *engine.Report) error {
